@@ -549,7 +549,7 @@ def run(tier, seed):
     # bigger oracle budget when something broke
     if proof_broken or mismatches:
         rng = C.rng_for(seed, CID + ':search')
-        extra = [rand_form(rng, rng.choice([3, 4]), rng.choice([3, 4]), 1) for _ in range(3000)]
+        extra = [rand_form(rng, rng.choice([3, 4]), rng.choice([3, 4]), 1) for _ in range(800 if tier == 'quick' else 6000)]
         ans = run_impl(['O ' + f for f in extra])
         for f, a in zip(extra, ans):
             if a and len(a) == 3 and a[0] != a[2]:
